@@ -18,8 +18,10 @@ package discov
 //@ lockinv (c *container) lock: cInv(c) && snapOK(c)
 //@ guarded_by values, mapping
 
+// (in-place filtering: the filtered list replaces the one it was cut from (c.values[server]) or that entry is deleted: the overwritten array is not read afterwards)
 //@ func (c *container) doRemoveKey
 //@   property C13
+//@   flag append_in_place_ok
 //@   requires held(c.lock)
 //@   requires cInv(c) && abVal[c.dirty]
 //@   ensures  cInv(c)
